@@ -69,6 +69,8 @@ class FS:
         self.log.append((self.ops, what, name))
         if self.ops == self.fault_at:
             self.faulted = (self.ops, what, name)
+            if getattr(self, 'fault_exc', None) is not None:
+                raise self.fault_exc('injected failure at op %d (%s %s)' % (self.ops, what, name))
             raise Fault(5, 'injected I/O error at op %d (%s %s)' % (self.ops, what, name))
         return self.ops == self.kill_at and self.snapshot is None
 
